@@ -256,8 +256,9 @@ class SubclassGate(_DecisionGate):
 class HGen(PartGenerator):
     """Part generator that stamps every leaf part with a harness uid."""
 
-    def __init__(self, src_id, values, qualities, batch_sizes, log):
+    def __init__(self, src_id, values, qualities, batch_sizes, log, scratch=False):
         super().__init__(name_prefix=src_id)
+        self.scratch = [] if scratch else None
         self.src_id = src_id
         self.values = values
         self.qualities = qualities
@@ -281,7 +282,14 @@ class HGen(PartGenerator):
         if self.batch_sizes:
             size = self.batch_sizes[(n - 1) % len(self.batch_sizes)]
             parts = [self._leaf(f'{part_name}.{k}', n, k, n + k) for k in range(size)]
-            top = Batch(name=part_name, parts=parts)
+            if self.scratch is not None:
+                # a generator that builds every Batch in ONE scratch list (legal when the list has been
+                # emptied by the time the next Batch is built, e.g. by a PartBatcher that unpacked it)
+                self.scratch.clear()
+                self.scratch.extend(parts)
+                top = Batch(name=part_name, parts=self.scratch)
+            else:
+                top = Batch(name=part_name, parts=parts)
             top.hseq = n
             top.hsrc = self.src_id
             top.huid = f'{self.src_id}:{n}#'
@@ -350,7 +358,8 @@ def build(spec, bus=None, script=True, system=None, known=None):
         i, k = it['id'], it['kind']
         ups = [w.devs[u] if u in w.devs else known[u] for u in it.get('up', [])]
         if k == 'source':
-            gen = cls['HGen'](i, it.get('values', [0]), it.get('qualities', [1]), it.get('batch'), log)
+            gen = cls['HGen'](i, it.get('values', [0]), it.get('qualities', [1]), it.get('batch'), log,
+                              scratch=bool(it.get('scratch')))
             kw = {}
             if it.get('budget') is not None:
                 kw['starting_parts'] = it['budget']
